@@ -335,6 +335,9 @@ def run(repo: Repo, rep: Report, tier: str) -> None:
         rep.check(not muts, "data-flow", fq, muts[0] if muts else f"{dsv} only bound from the handler result", "the handler's data set is replaced before it is encoded", mod=sc, node=muts[0] if muts else fn)
     check_handler_dataset_replacement(repo, rep)
     check_handler_block_minimal(repo, rep, dimse_events)
+    check_encode_total(repo, rep)
+    from .c17 import check_fresh_message
+    check_fresh_message(repo, rep, "reply-fresh")
     from ..delegate import delegate
     rep.rule("reply-delivered", "the response (status and data set) is cut into fragments the requestor can reassemble for every length (C15's fragmentation rules)")
     delegate(repo, rep, tier, "C15", ("overhead", "overhead-count", "order-flags", "one-pdv"), "reply-delivered", "for some reply sizes the response carrying the handler's status and data set is never completed on the wire: the requestor gets neither")
@@ -402,6 +405,36 @@ def check_handler_dataset_replacement(repo: Repo, rep: Report) -> None:
                 ok = all(any(isinstance(nm, ast.Name) and nm.id == dsv for nm in ast.walk(d)) for d in disj)
             rep.check(ok, "data-flow", fq, s, f"the handler's data set `{dsv}` is replaced under `{norm(g.test) if g is not None else 'no condition'}`: a condition that does not depend on what the handler supplied discards a valid Identifier (e.g. its own Failed SOP Instance UID List) - the requestor receives a different data set than the handler returned", mod=sc, node=s)
     rep.floor("handler data-set replacement sites (C-GET / C-MOVE)", n, 2)
+
+
+def check_encode_total(repo: Repo, rep: Report, rule: str = "encode-total") -> None:
+    """The SCPs decide 'the handler's data set cannot be encoded -> documented failure status' by testing
+    dsutils.encode()'s result for None. That only works while encode() is total: whatever the pydicom writer
+    raises on a user-supplied data set (pydicom reports out-of-range values as OSError / struct.error, not
+    only TypeError / ValueError) must end in `return None`, so every call that is handed the data set sits in
+    a try with a catch-all handler that does not re-raise."""
+    rep.rule(rule, "dsutils.encode() returns None for whatever the pydicom writer raises: every call given the data set is inside a catch-all try")
+    m = repo.mod("dsutils")
+    fn = repo.func("dsutils", "encode")
+    dsp = fn.args.args[0].arg
+    n = 0
+    for c in walk_no_nested(fn):
+        if not (isinstance(c, ast.Call) and any(isinstance(a, ast.Name) and a.id == dsp for a in list(c.args) + [k.value for k in c.keywords])):
+            continue
+        if norm(c.func) in ("isinstance", "cast", "len", "id", "type") or norm(c.func).startswith("LOGGER."):
+            continue
+        n += 1
+        t = enclosing(c, (ast.Try,))
+        ok = False
+        while t is not None and not ok:
+            in_body = any(c is x for s_ in t.body for x in ast.walk(s_))
+            for h in t.handlers if in_body else []:
+                names = [] if h.type is None else [norm(x) for x in h.type.elts] if isinstance(h.type, ast.Tuple) else [norm(h.type)]
+                if (h.type is None or "Exception" in names or "BaseException" in names) and not any(isinstance(r, ast.Raise) for r in ast.walk(h)) and any(isinstance(r, ast.Return) and (r.value is None or (isinstance(r.value, ast.Constant) and r.value.value is None)) for r in ast.walk(h)):
+                    ok = True
+            t = enclosing(t, (ast.Try,))
+        rep.check(ok, rule, "dsutils.encode", enclosing(c, (ast.stmt,)) or c, f"`{norm(c)[:40]}` is given the caller's data set outside a try whose catch-all handler returns None: an exception of another type than the ones listed (pydicom raises OSError / struct.error for out-of-range values, KeyError for unknown tags) leaves encode(), the SCP's `is None` test never runs, the exception reaches _serve_request and the association is aborted instead of the documented 'cannot encode' failure status being sent", mod=m, node=c)
+    rep.floor("calls of dsutils.encode given the data set", n, 1)
 
 
 PURE_IN_HANDLER_BLOCK = {"evt.trigger", "isinstance", "hasattr", "setattr", "getattr", "cast", "next", "int", "len", "str", "bool", "iter", "AttributeError", "TypeError", "ValueError", "RuntimeError", "Dataset"}
